@@ -4,5 +4,6 @@ CONSTANTS
   Spacings = {1, 3}
   UnitExps = {6}
   Els = {"f64"}
+  LinUnitExps = {80, 1120}
 INVARIANT Emit
 CHECK_DEADLOCK FALSE
